@@ -66,9 +66,13 @@ void ddp_replace_char_in_string(ddpstring *str, ddpchar ch, ddpint index) {
 	if (oldCharLen == newCharLen) { // no need for allocations
 		memcpy(str->str + i, newChar, newCharLen);
 		return;
-	} else if (oldCharLen > newCharLen) { // no need for allocations
+	} else if (oldCharLen > newCharLen) {
 		memcpy(str->str + i, newChar, newCharLen);
 		memmove(str->str + i + newCharLen, str->str + i + oldCharLen, str->cap - i - oldCharLen);
+		// cap must stay strlen + 1, every other text function relies on it
+		size_t newStrCap = str->cap - oldCharLen + newCharLen;
+		str->str = ddp_reallocate(str->str, str->cap, newStrCap);
+		str->cap = newStrCap;
 	} else {
 		size_t newStrCap = str->cap - oldCharLen + newCharLen;
 		char *newStr = DDP_ALLOCATE(char, newStrCap);
